@@ -275,4 +275,253 @@ Section Inv5.
     destruct (zhas sid (g_sensors g)) eqn:Z; [|apply R; reflexivity].
     apply zhas_true in Z as [nd G]. destruct (get_node5 g sid nd I5 G) as (RR & _). exact RR.
   Qed.
+  (* ---- handlers ---- *)
+  Definition h5 (r : res (gw * option msg)) : Prop :=
+    forall g1 rep, r = Ok (g1, rep) -> Inv5 g1 /\ forall x, rep = Some x -> goodmsg x.
+
+  Lemma vld_node_range m : vld m = true -> 0 <= m_node m <= 255.
+  Proof. rewrite vld_eta, vld_spec. tauto. Qed.
+
+  Lemma ucv_node5 k nd c s p : node5 (k, nd) -> rv_ok k c (s, PS p) -> node5 (k, update_child_value nd c s p).
+  Proof.
+    intros (R & CH & NW & Q) RV. simpl in R, CH, NW, Q. unfold update_child_value.
+    destruct (zassoc c (n_children nd)) as [ch|] eqn:E; [|split; [exact R|]; split; [exact CH|]; split; assumption].
+    assert (CH' : Forall (fun cc => Forall (rv_ok k (fst cc)) (c_values (snd cc)))
+                         (zset c (mkChild (c_id ch) (c_type ch) (c_desc ch) (zset s (PS p) (c_values ch))) (n_children nd))).
+    { apply Forall_zset; [exact CH|]. simpl. apply Forall_zset; [|exact RV].
+      pose proof (zassoc_Forall _ _ _ _ CH E) as X. simpl in X. exact X. }
+    destruct (zassoc c (n_new nd)) as [dv|] eqn:D.
+    - split; [exact R|]. split; [exact CH'|]. split; [|exact Q]. simpl. apply Forall_zset; [exact NW|]. simpl.
+      apply Forall_zset; [|exact Logic.I]. pose proof (zassoc_Forall _ _ _ _ NW D) as X. simpl in X. exact X.
+    - split; [exact R|]. split; [exact CH'|]. split; assumption.
+  Qed.
+
+  Lemma handle_set5 g m : cfgv v g -> Inv orc g -> Inv5 g -> wire_ok (m_payload m) = true -> vld m = true ->
+    m_type m = 1 -> h5 (handle_set g m).
+  Proof.
+    intros C I I5 W V Ty g1 rep. unfold handle_set.
+    destruct (is_sensor g (m_node m) (Some (m_child m))) as [[g0 b]|e] eqn:IS; cbn [bind]; [|discriminate].
+    pose proof (vld_node_range m V) as RN.
+    assert (I0 : Inv5 g0) by (apply (is_sensor5 g _ _ _ _ C I I5 (fun _ _ => RN) IS)).
+    destruct (is_sensor_eff orc clock v _ _ _ _ _ C I IS) as (B & _ & GG).
+    destruct b; cbn [negb].
+    - specialize (GG eq_refl). subst g0. symmetry in B. destruct (guard_get clock _ _ _ B) as (nd & G & _). rewrite G.
+      pose proof (get_node_ok orc g _ _ I G) as [K _]. simpl in K.
+      assert (I2 : Inv5 (alert (put_node g (update_child_value nd (m_child m) (m_sub m) (m_payload m))) m)).
+      { apply Inv5_alert. apply Inv5_put_node; [exact I5|]. rewrite ucv_id, K.
+        apply ucv_node5; [apply (get_node5 g); assumption|]. split; [exact W|]. simpl.
+        rewrite vld_eta, Ty in V. apply (vld_set_ack _ _ (m_ack m)); [exact V|left; reflexivity]. }
+      destruct (n_reboot (update_child_value nd (m_child m) (m_sub m) (m_payload m))).
+      + unfold internal_member. rewrite (cfgv_tab v g C), k_reboot, k_internal. cbn [of_option bind].
+        rewrite copy_spec by exact W. cbn [bind]. intro H. inversion H; subst g1 rep. split; [exact I2|].
+        intros x E. inversion E; subst x. apply (good_reboot (m_node m) RN).
+      + intro H. inversion H; subst g1 rep. split; [exact I2|discriminate].
+    - intro H. inversion H; subst g1 rep. split; [exact I0|discriminate].
+  Qed.
+
+  Lemma desired5 g n nd c s x : cfgv v g -> Inv orc g -> Inv5 g -> get_node g n = Some nd ->
+    get_desired_value nd c s = Some x ->
+    wire_ok (py_str x) = true /\ vld (mkMsg n c 1 0 s (py_str x)) = true.
+  Proof.
+    intros C I I5 G. pose proof (get_node_ok orc g _ _ I G) as [K N]. simpl in K, N.
+    destruct (get_node5 g _ _ I5 G) as (_ & CH & NW & _). simpl in CH, NW.
+    unfold get_desired_value. destruct (zassoc c (n_children nd)) as [ch|] eqn:E; [|discriminate].
+    assert (REP : zassoc s (c_values ch) = Some x ->
+                  wire_ok (py_str x) = true /\ vld (mkMsg n c 1 0 s (py_str x)) = true).
+    { intro S. pose proof (zassoc_Forall _ _ _ _ CH E) as X. simpl in X.
+      pose proof (zassoc_Forall _ _ _ _ X S) as Y. exact Y. }
+    destruct (sleeping nd); [|exact REP].
+    destruct (zassoc c (n_new nd)) as [dv|] eqn:D; [|exact REP].
+    destruct (zassoc s dv) as [[y|]|] eqn:S; try exact REP.
+    intro H. inversion H; subst y. split.
+    - pose proof (zassoc_Forall _ _ _ _ NW D) as X. simpl in X.
+      pose proof (zassoc_Forall _ _ _ _ X S) as Y. exact Y.
+    - pose proof (zassoc_Forall _ _ _ _ N D) as X. simpl in X.
+      pose proof (zassoc_Forall _ _ _ _ X S) as Y. simpl in Y. unfold dvalid in Y.
+      rewrite (cfgv_tab v g C), k_set, K in Y. exact Y.
+  Qed.
+
+  Lemma handle_req5 g m : cfgv v g -> Inv orc g -> Inv5 g -> wire_ok (m_payload m) = true -> vld m = true ->
+    m_type m = 2 -> h5 (handle_req g m).
+  Proof.
+    intros C I I5 W V Ty g1 rep. unfold handle_req.
+    destruct (is_sensor g (m_node m) (Some (m_child m))) as [[g0 b]|e] eqn:IS; cbn [bind]; [|discriminate].
+    pose proof (vld_node_range m V) as RN.
+    assert (I0 : Inv5 g0) by (apply (is_sensor5 g _ _ _ _ C I I5 (fun _ _ => RN) IS)).
+    destruct (is_sensor_eff orc clock v _ _ _ _ _ C I IS) as (B & _ & GG).
+    destruct b; cbn [negb].
+    - specialize (GG eq_refl). subst g0. symmetry in B. destruct (guard_get clock _ _ _ B) as (nd & G & _). rewrite G.
+      destruct (get_desired_value nd (m_child m) (m_sub m)) as [x|] eqn:DV.
+      + rewrite copy_spec by exact W. cbn [bind]. intro H. inversion H; subst g1 rep. split; [exact I5|].
+        intros y E. inversion E; subst y.
+        destruct (desired5 g _ _ _ _ _ C I I5 G DV) as [WX VX].
+        split; [exact WX|]. rewrite override_eta. cbn [ov r_node r_child r_type r_ack r_sub r_payload repl_type_payload].
+        rewrite (cfgv_tab v g C), k_set. apply (vld_set_ack _ _ 0); [exact VX|].
+        rewrite vld_eta, vld_spec in V. tauto.
+      + intro H. inversion H; subst g1 rep. split; [exact I5|discriminate].
+    - intro H. inversion H; subst g1 rep. split; [exact I0|discriminate].
+  Qed.
+
+  Lemma handle_presentation5 g m : cfgv v g -> Inv orc g -> Inv5 g -> wire_ok (m_payload m) = true -> vld m = true ->
+    h5 (handle_presentation orc g m).
+  Proof.
+    intros C I I5 W V g1 rep. unfold handle_presentation. pose proof (vld_node_range m V) as RN.
+    destruct (m_child m =? system_child_id).
+    - destruct (get_node (add_sensor g (m_node m)) (m_node m)) as [nd|] eqn:G; [|discriminate].
+      intro H. inversion H; subst g1 rep. split; [|intros x E; inversion E; subst x; split; assumption].
+      apply Inv5_alert.
+      apply (Inv5_put_same (add_sensor g (m_node m)) (m_node m) nd); try reflexivity;
+        [apply Inv_add_sensor; exact I|apply Inv5_add_sensor; assumption|exact G].
+    - destruct (is_sensor g (m_node m) None) as [[g0 b]|e] eqn:IS; cbn [bind]; [|discriminate].
+      assert (I0 : Inv5 g0) by (apply (is_sensor5 g _ _ _ _ C I I5 (fun _ _ => RN) IS)).
+      destruct (is_sensor_eff orc clock v _ _ _ _ _ C I IS) as (B & _ & GG).
+      destruct b; cbn [negb].
+      + specialize (GG eq_refl). subst g0. symmetry in B. destruct (guard_get clock _ _ _ B) as (nd & G & _). rewrite G.
+        destruct (zhas (m_child m) (n_children nd)).
+        * intro H. inversion H; subst g1 rep. split; [exact I5|discriminate].
+        * intro H. inversion H; subst g1 rep. split; [|intros x E; inversion E; subst x; split; assumption].
+          apply Inv5_alert. apply Inv5_put_node; [exact I5|].
+          pose proof (get_node_ok orc g _ _ I G) as [K _]. simpl in K.
+          destruct (get_node5 g _ _ I5 G) as (R & CH & NW & Q). simpl in R, CH, NW, Q.
+          change (n_id (with_children nd (n_children nd ++ [(m_child m, mkChild (m_child m) (m_sub m) (m_payload m) [])])))
+            with (n_id nd). rewrite K.
+          split; [exact R|]. split; [|split; assumption]. simpl.
+          apply Forall_app. split; [exact CH|]. constructor; [constructor|constructor].
+      + intro H. inversion H; subst g1 rep. split; [exact I0|discriminate].
+  Qed.
+
+  Lemma node_attr5 f g m : cfgv v g -> Inv orc g -> Inv5 g -> vld m = true ->
+    (forall nd p, n_id (f nd p) = n_id nd /\ n_children (f nd p) = n_children nd /\
+                  n_new (f nd p) = n_new nd /\ n_queue (f nd p) = n_queue nd) ->
+    h5 (node_attr_handler f g m).
+  Proof.
+    intros C I I5 V Hf g1 rep. unfold node_attr_handler. pose proof (vld_node_range m V) as RN.
+    destruct (is_sensor g (m_node m) None) as [[g0 b]|e] eqn:IS; cbn [bind]; [|discriminate].
+    assert (I0 : Inv5 g0) by (apply (is_sensor5 g _ _ _ _ C I I5 (fun _ _ => RN) IS)).
+    destruct (is_sensor_eff orc clock v _ _ _ _ _ C I IS) as (B & _ & GG).
+    destruct b; cbn [negb].
+    - specialize (GG eq_refl). subst g0. symmetry in B. destruct (guard_get clock _ _ _ B) as (nd & G & _). rewrite G.
+      intro H. inversion H; subst g1 rep. split; [|discriminate].
+      destruct (Hf nd (m_payload m)) as (E1 & E2 & E3 & E4).
+      apply Inv5_alert. apply (Inv5_put_same g (m_node m) nd); assumption.
+    - intro H. inversion H; subst g1 rep. split; [exact I0|discriminate].
+  Qed.
+
+  Lemma next_id_range g nid : cfgv v g -> Inv5 g -> next_id g = Some nid -> 1 <= nid <= 254.
+  Proof.
+    intros C (A & _). unfold next_id. rewrite (cfgv_tab v g C), k_max_node.
+    destruct (g_sensors g) as [|[k a] l].
+    - intro H. cbn in H. inversion H. lia.
+    - set (mx := fold_left Z.max (map fst ((k, a) :: l)) (fst (hd (0, new_node 0) ((k, a) :: l)))).
+      assert (L : k <= mx) by (subst mx; cbn [hd fst]; apply fold_max_ge).
+      inversion A as [|? ? N5 _]; subst. destruct N5 as (R & _). simpl in R.
+      destruct (mx + 1 <=? 254) eqn:LE; intro H; inversion H; lia.
+  Qed.
+
+  Lemma handle_id_request5 g m : cfgv v g -> Inv orc g -> Inv5 g -> wire_ok (m_payload m) = true -> vld m = true ->
+    m_type m = 3 -> h5 (handle_id_request g m).
+  Proof.
+    intros C I I5 W V Ty g1 rep. unfold handle_id_request. pose proof (vld_node_range m V) as RN.
+    destruct (next_id g) as [nid|] eqn:NX; [|intro H; inversion H; subst g1 rep; split; [exact I5|discriminate]].
+    pose proof (next_id_range g nid C I5 NX) as RI.
+    assert (IA : Inv5 (add_sensor g nid)) by (apply Inv5_add_sensor; [exact I5|lia]).
+    destruct (zhas nid (g_sensors (add_sensor g nid))); cbn [negb];
+      [|intro H; inversion H; subst g1 rep; split; [exact IA|discriminate]].
+    unfold internal_member. rewrite (cfgv_tab v g C), k_id_response. cbn [of_option bind].
+    rewrite copy_spec by exact W. cbn [bind]. intro H. inversion H; subst g1 rep.
+    split; [apply Inv5_alert; exact IA|]. intros x E. inversion E; subst x.
+    rewrite override_eta. cbn [ov r_node r_child r_type r_ack r_sub r_payload]. rewrite Ty.
+    apply good_id_response; assumption.
+  Qed.
+
+  (* ---- wake-up flush ---- *)
+  Lemma init_smart_sleep5 k nd : node5 (k, nd) -> node5 (k, init_smart_sleep nd).
+  Proof.
+    intros (R & CH & NW & Q). simpl in R, CH, NW, Q. split; [exact R|]. split; [exact CH|]. split; [|exact Q].
+    simpl. generalize (n_children nd). intro chs. revert NW. generalize (n_new nd).
+    induction chs as [|[c ch] r IH]; intros nw NW; simpl; [exact NW|].
+    apply IH. destruct (zhas c nw); [exact NW|].
+    apply Forall_app. split; [exact NW|]. constructor; [|constructor]. simpl. constructor.
+  Qed.
+
+  Lemma flush_values_pre5 g nid cid dv vals : cfgv v g -> dv_wire dv ->
+    Forall good (fst (flush_values_pre orc g nid cid dv vals)).
+  Proof.
+    intros C DW. induction vals as [|[vt x] r IH]; simpl; [constructor|].
+    destruct (zassoc vt dv) as [[y|]|] eqn:E; try exact IH.
+    destruct (create_set_message orc g nid cid (VtInt vt) y None None) as [m0|e0] eqn:CM; [|constructor].
+    destruct (flush_values_pre orc g nid cid dv r) as [rest e']. simpl in *. constructor; [|exact IH].
+    unfold create_set_message in CM. cbn [vt_int] in CM.
+    destruct (gvalidate orc g (mkMsg nid cid (vt_set (tab g)) 0 vt (py_str y))) eqn:GV; inversion CM; subst m0.
+    eexists. split; [reflexivity|]. split.
+    - pose proof (zassoc_Forall _ _ _ _ DW E) as X. exact X.
+    - rewrite <- (gvalidate_vld g _ C). exact GV.
+  Qed.
+
+  Lemma flush_children_pre5 g nd chs : cfgv v g -> Forall (fun cd => dv_wire (snd cd)) (n_new nd) ->
+    Forall good (fst (flush_children_pre orc g nd chs)).
+  Proof.
+    intros C NW. induction chs as [|[kk ch] r IH]; simpl; [constructor|].
+    destruct (zassoc (c_id ch) (n_new nd)) as [dv|] eqn:E; [|exact IH].
+    pose proof (zassoc_Forall _ _ _ _ NW E) as DW. simpl in DW.
+    pose proof (flush_values_pre5 g (n_id nd) (c_id ch) dv (c_values ch) C DW) as P.
+    destruct (flush_values_pre orc g (n_id nd) (c_id ch) dv (c_values ch)) as [a [e|]]; simpl in *; [exact P|].
+    destruct (flush_children_pre orc g nd r) as [b e']. simpl in *. apply Forall_app. split; assumption.
+  Qed.
+
+  Lemma handle_smartsleep5 g k nd g2 : cfgv v g -> Inv orc g -> Inv5 g -> get_node g k = Some nd ->
+    handle_smartsleep orc g nd = Ok g2 -> Inv5 g2.
+  Proof.
+    intros C I I5 G. unfold handle_smartsleep.
+    pose proof (get_node_ok orc g _ _ I G) as [K _]. simpl in K.
+    pose proof (init_smart_sleep5 k nd (get_node5 g _ _ I5 G)) as N1.
+    set (nd1 := init_smart_sleep nd) in *.
+    set (nd2 := with_queue nd1 []).
+    assert (N2 : node5 (n_id nd2, nd2)).
+    { change (n_id nd2) with (n_id nd). rewrite K. destruct N1 as (R & CH & NW & Q).
+      split; [exact R|]. split; [exact CH|]. split; [exact NW|constructor]. }
+    set (g1 := put_node g nd2).
+    assert (I1 : Inv5 g1) by (apply Inv5_put_node; assumption).
+    set (g2' := fold_left add_job_send (n_queue nd1) g1).
+    assert (I2 : Inv5 g2').
+    { apply Inv5_fold_add_job; [exact I1|]. destruct N1 as (_ & _ & _ & Q). simpl in Q.
+      eapply Forall_impl; [|exact Q]. intros l. apply good_to_good. }
+    assert (C2 : cfgv v g2').
+    { apply (cfgv_ext v g); [|exact C]. destruct (fold_add_job_send_frame (n_queue nd1) g1) as (_&_&CC&_). exact CC. }
+    pose proof (flush_children_pre5 g2' nd2 (n_children nd2) C2) as FP.
+    destruct (flush_children_pre orc g2' nd2 (n_children nd2)) as [sets e]. simpl in FP.
+    destruct e; [discriminate|]. intro H. inversion H; subst g2.
+    apply Inv5_fold_add_job; [exact I2|]. apply FP. destruct N1 as (_ & _ & NW & _). exact NW.
+  Qed.
+
+  Lemma handle_heartbeat5 g m : cfgv v g -> Inv orc g -> Inv5 g -> vld m = true ->
+    h5 (handle_heartbeat_response orc g m).
+  Proof.
+    intros C I I5 V g1 rep. unfold handle_heartbeat_response. pose proof (vld_node_range m V) as RN.
+    destruct (is_sensor g (m_node m) None) as [[g0 b]|e] eqn:IS; cbn [bind]; [|discriminate].
+    assert (I0 : Inv5 g0) by (apply (is_sensor5 g _ _ _ _ C I I5 (fun _ _ => RN) IS)).
+    destruct (is_sensor_eff orc clock v _ _ _ _ _ C I IS) as (B & _ & GG).
+    destruct b; cbn [negb].
+    - specialize (GG eq_refl). subst g0. symmetry in B. destruct (guard_get clock _ _ _ B) as (nd & G & _). rewrite G.
+      destruct (handle_smartsleep_ok orc g (m_node m) nd I G) as (g2 & E2 & IG2 & C2 & nd2 & G2).
+      rewrite E2. cbn [bind]. rewrite G2. intro H. inversion H; subst g1 rep. split; [|discriminate].
+      apply Inv5_alert. apply (Inv5_put_same g2 (m_node m) nd2); try reflexivity; try assumption.
+      apply (handle_smartsleep5 g (m_node m) nd); assumption.
+    - intro H. inversion H; subst g1 rep. split; [exact I0|discriminate].
+  Qed.
+
+  Lemma handle_pre_sleep5 g m : cfgv v g -> Inv orc g -> Inv5 g -> vld m = true ->
+    h5 (handle_pre_sleep orc g m).
+  Proof.
+    intros C I I5 V g1 rep. unfold handle_pre_sleep. pose proof (vld_node_range m V) as RN.
+    destruct (is_sensor g (m_node m) None) as [[g0 b]|e] eqn:IS; cbn [bind]; [|discriminate].
+    assert (I0 : Inv5 g0) by (apply (is_sensor5 g _ _ _ _ C I I5 (fun _ _ => RN) IS)).
+    destruct (is_sensor_eff orc clock v _ _ _ _ _ C I IS) as (B & _ & GG).
+    destruct b; cbn [negb].
+    - specialize (GG eq_refl). subst g0. symmetry in B. destruct (guard_get clock _ _ _ B) as (nd & G & _). rewrite G.
+      destruct (handle_smartsleep orc g nd) as [g2|e] eqn:E2; cbn [bind]; [|discriminate].
+      intro H. inversion H; subst g1 rep. split; [|discriminate].
+      apply (handle_smartsleep5 g (m_node m) nd); assumption.
+    - intro H. inversion H; subst g1 rep. split; [exact I0|discriminate].
+  Qed.
 End Inv5.
